@@ -540,6 +540,55 @@ def wiring_obligations(ctx, rule):
                      (("call", ("g", "networkx.topological_sort"), (ng,), ()),), ()))
     ctx.ob(rule, init, "_sorted_nodes = list(topological_sort(node graph of all nodes))",
            ok, detail=short(sn or ()), stmt="sorted nodes " + pretty(sn or ())[:120])
+    # the node graph must reach topological_sort as built: no call that receives it
+    # may edit it (a shared graph object re-wired for another purpose changes the
+    # sweep order)
+    if ng is not None:
+        GRAPH_MUT = {"add_edge", "remove_edge", "add_node", "remove_node", "add_edges_from",
+                     "remove_edges_from", "add_nodes_from", "remove_nodes_from", "clear",
+                     "clear_edges", "update", "add_weighted_edges_from", "__setitem__"}
+        ng_alias = (ng, ("a", SELF, "_node_graph"))
+        for t, nd, cond in calls:
+            if t[0] != "call":
+                continue
+            args = list(t[2]) + [v for _, v in t[3]]
+            recv = t[1][1] if t[1][0] == "a" else None
+            if recv in ng_alias and t[1][2] in GRAPH_MUT:
+                ctx.ob(rule, init, "the node graph is not edited after it was built", False,
+                       detail=short(t), node=nd, stmt="node graph edited: " + pretty(t)[:100])
+                continue
+            if not any(a in ng_alias for a in args):
+                continue
+            name = fn_name(t[1]) or ""
+            if name.startswith("networkx."):
+                ok_c = name.rsplit(".", 1)[-1] in (
+                    "topological_sort", "is_directed_acyclic_graph", "find_cycle",
+                    "lexicographical_topological_sort", "topological_generations",
+                    "DiGraph", "simple_cycles")
+                ctx.ob(rule, init, f"{name} reads the node graph without editing it", ok_c,
+                       unproven=True, node=nd, stmt="node graph passed to " + name,
+                       nontrivial=False)
+                continue
+            callee = None
+            if t[1][0] == "a" and t[1][1] == SELF:
+                callee = repo.lookup_method(mc, t[1][2])
+            elif name in repo.functions:
+                callee = repo.functions[name]
+            if callee is None:
+                ctx.ob(rule, init, "the node graph is handed only to functions that are known "
+                                   "not to edit it", False, unproven=True, detail=short(t),
+                       node=nd, stmt="node graph passed to " + pretty(t[1])[:80])
+                continue
+            rcal = evaluate(repo, callee)
+            params = [p for p in callee.params() if p not in ("self", "cls")]
+            pos = [i for i, a in enumerate(t[2]) if a in ng_alias]
+            pnames = {params[i] for i in pos if i < len(params)} | {
+                k for k, v in t[3] if v in ng_alias}
+            edits = [ct for ct, _, _ in rcal.calls if ct[0] == "call" and ct[1][0] == "a"
+                     and ct[1][2] in GRAPH_MUT and ct[1][1][0] == "n" and ct[1][1][1] in pnames]
+            ctx.ob(rule, init, f"{callee.qualname} does not edit the node graph it is given",
+                   not edits, detail="; ".join(short(e, 80) for e in edits[:3]), node=nd,
+                   stmt="node graph edited by " + callee.name)
     bng = method(repo, mc, "_build_node_graph")
     rg = evaluate(repo, bng)
     ext = [t for t, _, _ in rg.calls if t[1][0] == "a" and t[1][2] == "extend"]
@@ -552,6 +601,14 @@ def wiring_obligations(ctx, rule):
     ctx.ob(rule, bng, "graph edges are (input, node) for every input in "
                           "node.all_input_nodes() -- the same relation as the outputs", ok,
            detail=short(ext[0]) if ext else "", stmt="graph edges")
+    removers = [t for t, _, _ in rg.calls if t[0] == "call" and t[1][0] == "a"
+                and (t[1][2].startswith(("remove", "clear", "pop")) or t[1][2] in ("discard",))]
+    rt_g = rg.ret()
+    built = rt_g is not None and any(is_call(x, "networkx.DiGraph") for x in subterms(rt_g))
+    ctx.ob(rule, bng, "the node graph is built from the edge list and nothing is removed "
+                      "from it", built and not removers,
+           detail="; ".join(short(t, 80) for t in removers[:2]) or short(rt_g or ()),
+           stmt="graph pruned " + (pretty(removers[0])[:80] if removers else ""))
     sweep = [t for t, _, cond in calls if t[1][0] == "a" and t[1][2] == "update"
              and t[1][1] == ("iter", sn if sn else ())]
     ctx.ob(rule, init, "the initial sweep updates every node in sorted order",
